@@ -4,6 +4,7 @@ import (
 	"fmt"
 	"net"
 	"sync"
+	"sync/atomic"
 	"time"
 
 	"github.com/bokysan/socketace/v2/internal/server"
@@ -67,6 +68,7 @@ func (m *memServerComm) LocalAddr() net.Addr {
 // carried through the DnsPath to the server's registered handler (after a real
 // Pack/Unpack) and the answer datagrams are queued for Read.
 type DgramConn struct {
+	Muted  atomic.Bool // every further query of this peer is lost (the peer went silent)
 	srv    *memServerComm
 	path   *DnsPath
 	local  net.Addr
@@ -285,6 +287,9 @@ func (d *DgramConn) Write(p []byte) (int, error) {
 	fate := Delivered
 	if d.path != nil && d.path.Fate != nil {
 		fate = d.path.Fate(exch)
+	}
+	if d.Muted.Load() {
+		fate = QueryLost
 	}
 	d.mu.Lock()
 	d.FateLog = append(d.FateLog, fate)
